@@ -316,6 +316,9 @@ def replay_group(group):
   if first.get('keep', 0) > 0:
     # what a searcher does to the object before it fixes the geo index (tbrmatchedmarkets.py:69)
     data.df = data.df.iloc[:, -first['keep']:]
+    if (first['keep'] + len(first['rows'])) % 2 == 0:
+      # ... and the table may come back with its rows in another order (rows are found by geo ID, not by position)
+      data.df = data.df.iloc[::-1]
   for n, case in members:
     if not case['has_order']:
       raise tlc.MachineryError('a finished case of an accepted construction has no order')
